@@ -1168,9 +1168,39 @@ func (w *World) SelectorStory(o HistOpts) {
 	}
 }
 
+// TieDisputeStory (equal reporters, right after the bootstrap): a dispute on which two accounts with exactly equal stake
+// and balance vote in opposite directions and nobody else votes: the tally after the voting period is an exact tie,
+// whose outcome must be the same on every node.
+func (w *World) TieDisputeStory(o HistOpts) {
+	sec := time.Second
+	if len(w.Users) < 5 {
+		return
+	}
+	q := w.currentCycleQuery()
+	n0 := len(w.Reports)
+	w.block(HistOpts{Quiet: true}, 2*sec, func() { w.Submit(w.Users[0], q, hex32(77)) })
+	if len(w.Reports) == n0 {
+		return
+	}
+	rep := w.Reports[n0]
+	full := sdkmath.NewIntFromUint64(rep.Power).MulRaw(10_000) // warning: 1% of power * 10^6
+	w.block(HistOpts{Quiet: true}, 2*sec, func() { w.ProposeDispute(w.Users[1], rep, disputetypes.Warning, full.Int64(), false, "tie") })
+	id := w.lastDisputeId()
+	if id == 0 {
+		return
+	}
+	w.block(HistOpts{Quiet: true}, 2*sec, func() { w.Vote(w.Users[2], id, disputetypes.VoteEnum_VOTE_SUPPORT) }, func() { w.Vote(w.Users[3], id, disputetypes.VoteEnum_VOTE_AGAINST) })
+	w.block(HistOpts{Quiet: true}, 48*time.Hour+sec)
+	w.block(HistOpts{Quiet: true}, 25*time.Hour)
+	w.block(HistOpts{Quiet: true}, 2*sec, func() { w.ClaimReward(w.Users[2], id) }, func() { w.ClaimReward(w.Users[3], id) }, func() { w.WithdrawFeeRefund(w.Users[1], w.Users[1], id) })
+}
+
 // RunHistory = bootstrap + Blocks random blocks (+ dispute stories).
 func (w *World) RunHistory(o HistOpts) {
 	w.Bootstrap(o)
+	if o.TieBias {
+		w.TieDisputeStory(o)
+	}
 	storyAt := -1
 	if o.Stories > 0 && w.pick(100) < o.Stories {
 		storyAt = 2 + w.pick(o.Blocks/2+1)
